@@ -1,5 +1,3 @@
-//go:build wip_c12
-
 package props
 
 import (
@@ -160,7 +158,7 @@ func runC17(c *kit.Ctx) {
 	em := c17AnalyseEncoder(c, enc)
 
 	c17Layout(c, r1, enc, em, dec, dm)
-	c17Acceptance(c, r2, dec, dm)
+	c17Acceptance(c, r2, dec, dm, em)
 
 	// R3
 	keys := c12SiteKeys(dec.f, "packet bytes", dm.lf.Sites)
@@ -640,12 +638,19 @@ func c17Layout(c *kit.Ctx, r *kit.Rule, enc *c17Encoder, em *c17EncModel, dec *c
 	oSeq := r.Ob(df, nil, "sequence byte window", fmt.Sprintf("the decoder returns byte %d of the packet as sequence number", seqOff))
 	oSub := r.Ob(df, nil, "subject window", fmt.Sprintf("the decoder reads the subject from bytes [%d:%d) and strips only the zero padding", subOff, subOff+sSub.size))
 	oPay := r.Ob(df, nil, "payload window", fmt.Sprintf("on the checksummed path the decoder returns bytes [%d:len-%d) as payload", payOff, crcSize))
-	if len(succ) != 1 || sig == nil || sig.Results().Len() != len(succ[0].Results) {
+	type verdict struct{ status, msg string }
+	var vSeq, vSub, vPay []verdict
+	payChecked := false
+	if len(succ) == 0 || sig == nil {
 		for _, o := range []*kit.Ob{oSeq, oSub, oPay} {
-			o.Undecided("%d successful return statements in the decoder (exactly one is understood)", len(succ))
+			o.Undecided("no successful return statement in the decoder")
 		}
-	} else {
-		ret := succ[0]
+	}
+	for _, ret := range succ {
+		if sig == nil || sig.Results().Len() != len(ret.Results) {
+			vSeq = append(vSeq, verdict{"undecided", "return with a different number of results"})
+			continue
+		}
 		// which result is what: by type
 		var seqE, subE, payE ast.Expr
 		for i := 0; i < sig.Results().Len()-1; i++ {
@@ -667,24 +672,24 @@ func c17Layout(c *kit.Ctx, r *kit.Rule, enc *c17Encoder, em *c17EncModel, dec *c
 		if ix, ok := resolve(seqE).(*ast.IndexExpr); seqE != nil && ok && kit.ObjOf(info, ix.X) == dec.d {
 			if k, ok := kit.ConstInt(info, ix.Index); ok {
 				if k == seqOff {
-					oSeq.OK("returns %s", df.Str(ix))
+					vSeq = append(vSeq, verdict{"ok", "returns " + df.Str(ix)})
 				} else {
-					oSeq.Violation("the encoder writes the sequence number at byte %d but the decoder returns %s", seqOff, df.Str(ix))
+					vSeq = append(vSeq, verdict{"violation", fmt.Sprintf("the encoder writes the sequence number at byte %d but the decoder returns %s", seqOff, df.Str(ix))})
 				}
 			} else {
-				oSeq.Undecided("non-constant sequence index %s", df.Str(ix))
+				vSeq = append(vSeq, verdict{"undecided", "non-constant sequence index " + df.Str(ix)})
 			}
 		} else {
-			oSeq.Undecided("the byte result of the successful return is not an element of the packet")
+			vSeq = append(vSeq, verdict{"undecided", "the byte result of a successful return is not an element of the packet"})
 		}
 		// subject
 		if subE == nil {
-			oSub.Undecided("no string result")
+			vSub = append(vSub, verdict{"undecided", "no string result"})
 		} else {
 			def := resolve(subE)
 			se := c17DerivedSlice(info, def, dec.d)
 			if se == nil {
-				oSub.Undecided("the subject result %s does not derive from one slice of the packet", df.Str(subE))
+				vSub = append(vSub, verdict{"undecided", fmt.Sprintf("the subject result %s does not derive from one slice of the packet", df.Str(subE))})
 			} else {
 				lo, hi := boundsOf(se, nil)
 				wantLo, wantHi := fmt.Sprint(subOff), fmt.Sprint(subOff+sSub.size)
@@ -704,31 +709,66 @@ func c17Layout(c *kit.Ctx, r *kit.Rule, enc *c17Encoder, em *c17EncModel, dec *c
 				}
 				switch {
 				case len(lo) == 0:
-					oSub.Undecided("subject slice not reached")
+					vSub = append(vSub, verdict{"undecided", "subject slice not reached"})
 				case one(lo) != wantLo || one(hi) != wantHi:
-					oSub.Violation("the encoder writes the subject into bytes [%s:%s) but the decoder reads %s = bytes [%s:%s)", wantLo, wantHi, df.Str(se), one(lo), one(hi))
+					vSub = append(vSub, verdict{"violation", fmt.Sprintf("the encoder writes the subject into bytes [%s:%s) but the decoder reads %s = bytes [%s:%s)", wantLo, wantHi, df.Str(se), one(lo), one(hi))})
 				case !wrapOK:
-					oSub.Undecided("the subject bytes are post-processed by %s (only string(...) and trimming of NUL padding are understood)", df.Str(def))
+					vSub = append(vSub, verdict{"undecided", fmt.Sprintf("the subject bytes are post-processed by %s (only string(...) and trimming of NUL padding are understood)", df.Str(def))})
 				default:
-					oSub.OK("%s", df.Str(def))
+					vSub = append(vSub, verdict{"ok", df.Str(def)})
 				}
 			}
 		}
-		// payload
+		// payload (only the checksummed path is a layout obligation: log packets carry no checksum by design)
 		if pse, ok := resolve(payE).(*ast.SliceExpr); payE != nil && ok && kit.ObjOf(info, pse.X) == dec.d {
 			lo, hi := boundsOf(pse, func(s kit.S) bool { return s.Get("a:log") == "F" })
 			wantLo, wantHi := fmt.Sprint(payOff), lminus(crcSize)
 			switch {
 			case len(lo) == 0:
-				oPay.Undecided("payload slice not reached on a checksummed path")
+				// this return is only reached for log packets
+				alo, _ := boundsOf(pse, nil)
+				if len(alo) == 0 {
+					vPay = append(vPay, verdict{"undecided", "payload slice not reached"})
+				}
 			case one(lo) != wantLo || one(hi) != wantHi:
-				oPay.Violation("the encoder places the payload in bytes [%s:%s) but on the checksummed path the decoder returns %s = bytes [%s:%s)", wantLo, wantHi, df.Str(pse), one(lo), one(hi))
+				payChecked = true
+				vPay = append(vPay, verdict{"violation", fmt.Sprintf("the encoder places the payload in bytes [%s:%s) but on the checksummed path the decoder returns %s = bytes [%s:%s)", wantLo, wantHi, df.Str(pse), one(lo), one(hi))})
 			default:
-				oPay.OK("%s = [%s:%s) when the subject is not log", df.Str(pse), one(lo), one(hi))
+				payChecked = true
+				vPay = append(vPay, verdict{"ok", fmt.Sprintf("%s = [%s:%s) when the subject is not log", df.Str(pse), one(lo), one(hi))})
 			}
 		} else {
-			oPay.Undecided("the []byte result of the successful return is not a slice of the packet")
+			vPay = append(vPay, verdict{"undecided", "the []byte result of a successful return is not a slice of the packet"})
 		}
+	}
+	if len(succ) > 0 && sig != nil {
+		if !payChecked {
+			vPay = append(vPay, verdict{"undecided", "no successful return is reached on a checksummed path"})
+		}
+		settle := func(o *kit.Ob, vs []verdict) {
+			var oks []string
+			for _, v := range vs {
+				if v.status == "violation" {
+					o.Violation("%s", v.msg)
+					return
+				}
+			}
+			for _, v := range vs {
+				if v.status == "undecided" {
+					o.Undecided("%s", v.msg)
+					return
+				}
+				oks = append(oks, v.msg)
+			}
+			if len(oks) == 0 {
+				o.Undecided("nothing to check")
+				return
+			}
+			o.OK("%s", strings.Join(c12Uniq(oks), "; "))
+		}
+		settle(oSeq, vSeq)
+		settle(oSub, vSub)
+		settle(oPay, vPay)
 	}
 
 	// checksum trailer
@@ -788,7 +828,7 @@ func c17Layout(c *kit.Ctx, r *kit.Rule, enc *c17Encoder, em *c17EncModel, dec *c
 // ===========================================================================
 // R2
 
-func c17Acceptance(c *kit.Ctx, r *kit.Rule, dec *c17Decoder, dm *c17DecModel) {
+func c17Acceptance(c *kit.Ctx, r *kit.Rule, dec *c17Decoder, dm *c17DecModel, em *c17EncModel) {
 	f := dec.f
 	info := f.Info()
 	lf := dm.lf
@@ -818,6 +858,16 @@ func c17Acceptance(c *kit.Ctx, r *kit.Rule, dec *c17Decoder, dm *c17DecModel) {
 	}
 	var accLog, accCrc bool
 	var badRej, badVal, unknown []string
+	// smallest packet the encoder can produce (0 = unknown)
+	var minPkt int64
+	for _, sg := range em.segs {
+		if sg.size > 0 {
+			minPkt += sg.size
+		}
+	}
+	if len(em.problems) > 0 || len(em.segs) != 4 {
+		minPkt = 0
+	}
 	for _, e := range lf.Result.Exits {
 		lg, cr := e.State.Get("a:log"), e.State.Get("a:crc")
 		at := "exit"
@@ -842,6 +892,13 @@ func c17Acceptance(c *kit.Ctx, r *kit.Rule, dec *c17Decoder, dm *c17DecModel) {
 				badRej = append(badRej, fmt.Sprintf("%s returns the payload with a nil error although %s on this path: a corrupted packet is delivered", at, why))
 			}
 		case "reject":
+			// a packet shorter than anything the encoder can produce may be
+			// refused whatever its checksum says
+			if minPkt > 0 {
+				if _, max, ok := lf.LenRange(e.State); ok && max >= 0 && max < minPkt {
+					continue
+				}
+			}
 			if lg == "T" {
 				badVal = append(badVal, fmt.Sprintf("%s rejects a log packet", at))
 			} else if cr == "T" {
